@@ -755,6 +755,10 @@ func (ev *evaluator) callExpr(n *ast.CallExpr) *Val {
 				ev.own()
 				kk = ev.x.mapKey(ev.st, k.T, mt.Key())
 			}
+			if !hasFreeBound(kk) && !hasFreeBound(m.T) {
+				ev.own()
+				ev.x.ctx.assume(ev.st, Implies(And(Neq(m.T, IntLit(0)), Select(dom, kk)), Ge(ev.x.ctx.hread(ev.st, mapSizeName(mt), SInt, m.T), IntLit(1))))
+			}
 			return &Val{T: And(Neq(m.T, IntLit(0)), Select(dom, kk)), Typ: boolT}
 		case "mapput", "mapdel", "mapsame", "mapisempty":
 			// the content of map m now, relative to its content at function entry (maps are updated in place):
@@ -801,6 +805,10 @@ func (ev *evaluator) callExpr(n *ast.CallExpr) *Val {
 			// representation equality (SMT =)
 			a := ev.ev(n.Args[0])
 			b := ev.ev(n.Args[1])
+			if a.Typ != nil && b.Typ != nil && a.T != nil && b.T != nil && a.T.sort != b.T.sort {
+				// values of different sorts are never the same (lets one clause range over the instances of a generic)
+				return &Val{T: False, Typ: boolT}
+			}
 			a, b = ev.coerce(a, b)
 			return &Val{T: Eq(a.T, b.T), Typ: boolT}
 		case "abs":
